@@ -75,11 +75,11 @@ PROPS = {
     "C15": {
         "level": "proof",
         "lean_modules": ["Astria.Quorum.Model", "Astria.Quorum.Theorems", "Astria.Quorum.Median", "Astria.Properties"],
-        "theorems": ["Astria.C15_threshold", "Astria.C15_accept_sound", "Astria.C15_empty_ok", "Astria.C15_median_in_range",
+        "theorems": ["Astria.C15_threshold", "Astria.C15_accept_sound", "Astria.C15_empty_ok", "Astria.C15_median_in_range", "Astria.C15_observation_admitted_price_not_decodable", "Astria.C15_price_length_consistent_iff",
                      "Astria.C15_original_counterexample"],
         "harnesses": ["core", "ve"],
         "monitors": ["median_in_range", "ve_accept_sound", "ve_empty_ok"],
-        "scope_regex": r"^(core median|quorum proposal) ",
+        "scope_regex": r"^(core median|quorum proposal|quorum pricelen) ",
         "nontrivial_regex": r"^(core median \S*,|quorum proposal .* => (ok|err:(insufficient|bad-signature|voted-twice|flag-mismatch)))",
         "rule": "in-crate harness on astria-core's private median: all lists of length <=2 (thorough <=4) over -4..4, 4000 (thorough 100000) "
                 "generated price vectors of length 1..9 incl. negative, odd, i128::MIN/MAX-adjacent values; and an in-crate harness (child "
@@ -87,7 +87,8 @@ PROPS = {
                 "validators (2/3 boundary), 1500 (thorough 20000) generated (validator set, last commit, extended commit) triples over 1..6 "
                 "validators with powers from {1,2,3,5,10,2^31,2^62,2^63-1}, honest or with one adversarial edit (missing / garbage / wrong-height / "
                 "foreign-key signature, repeated voter, flipped flag, changed power, swapped / dropped / pruned votes, extension or signature on "
-                "a non-commit vote, round mismatch, empty extended commit, height 1, unknown validator, validators going absent). non-trivial = "
+                "a non-commit vote, round mismatch, empty extended commit, height 1, unknown validator, validators going absent); plus price byte "
+                "lengths 0..40, 64, 255, 256, 1000 through verify_vote_extension and calculate_prices_from_vote_extensions (pricelen lines). non-trivial = "
                 "a list with at least two prices, or a proposal that reached the signature/threshold checks; distinct = distinct trace lines",
         "trusted_base": [KERNEL, "hand-written model Astria/Quorum/Model.lean (median, validate_proposal) tied to the code by the correspondence run",
                          "harness /verif/harness/core/mod.rs, /verif/harness/sequencer/vote_extension.rs + Lean driver", "ed25519 — sigOk is a parameter",
